@@ -219,16 +219,24 @@ def _is_sym(x):
 class VFile:
     """Virtual file: a ghost buffer of write records and the flushed disk content."""
 
-    def __init__(self, world, name, mode):
+    def __init__(self, world, name, mode, truncate=None):
         self.world = world
         self.name = name
         self.mode = mode
         self.buffer = []
         self.closed = False
         if "w" in mode:
+            if truncate is False and world.fs.get(name):
+                # opened for writing WITHOUT truncation (os.open without O_TRUNC): what was there stays behind whatever
+                # this run writes over its beginning
+                world.stale_tail[name] = list(world.fs[name])
             world.fs[name] = []
         elif "r" in mode and name not in world.fs:
             raise FileNotFoundError(name)
+
+    def fileno(self):
+        fd = self.world.new_fd(self.name, 0)
+        return fd
 
     def write(self, data):
         if self.closed:
@@ -330,6 +338,37 @@ class World:
         self.vospath = vp
         m.name = "posix"
         m.sep = os.sep
+        # file descriptors: just enough of os.open / os.fdopen / os.fsync / os.close for code that opens its output
+        # files with explicit flags or syncs them (fsync pushes what the OS holds: it does NOT empty Python's buffer)
+        for k in ("O_RDONLY", "O_WRONLY", "O_RDWR", "O_CREAT", "O_TRUNC", "O_APPEND", "O_EXCL"):
+            setattr(m, k, getattr(os, k))
+        self.fds = {}
+        self.stale_tail = {}
+
+        def new_fd(name, flags):
+            fd = 100 + len(w.fds)
+            w.fds[fd] = (name, flags)
+            return fd
+        self.new_fd = new_fd
+
+        def v_os_open(name, flags, mode=0o777, *a, **k):
+            exists = (name in w.fs) or os.path.exists(name)
+            if not exists and not flags & os.O_CREAT:
+                raise FileNotFoundError(name)
+            if exists and flags & os.O_EXCL and flags & os.O_CREAT:
+                raise FileExistsError(name)
+            return new_fd(name, flags)
+
+        def v_fdopen(fd, mode="r", *a, **k):
+            name, flags = w.fds[fd]
+            return VFile(w, name, mode, truncate=bool(flags & os.O_TRUNC))
+
+        def v_fsync(fd):
+            if fd not in w.fds:
+                raise OSError(9, "Bad file descriptor")
+            w.io_events.append(("fsync", w.fds[fd][0]))
+        m.open, m.fdopen, m.fsync, m.fdatasync = v_os_open, v_fdopen, v_fsync, v_fsync
+        m.close = lambda fd: w.fds.pop(fd, None)
         return m
 
     def _make_builtins(self):
